@@ -34,7 +34,7 @@ fn fmt_of(i: u64) -> (SerializationFormat, &'static str) {
 
 // ---- GDSII libraries ---------------------------------------------------------------------------------------
 fn hostile_gds(src: &mut Src) -> MLib {
-    let (mut m, _) = gen_lib(src, &GdsGenOpts { oversize: false, ..Default::default() });
+    let (mut m, _) = gen_lib(src, &GdsGenOpts { oversize: false, large_records: false, ..Default::default() });
     let mut fix = |s: &mut String, src: &mut Src| {
         if src.bool() {
             *s = hostile_string(src);
